@@ -852,7 +852,12 @@ def _report(prop, tier, seed, obls, results, known, t_start, write_baseline, onl
             if a not in assumptions:
                 assumptions.append(a)
     for s in stubs_used:
-        assumptions.append(f"A5 assumed contract of external dependency: {s}")
+        try:
+            from contracts.deps_validation import VALIDATED_BY
+            val = next((v for k, v in VALIDATED_BY.items() if k in s), None)
+        except Exception:
+            val = None
+        assumptions.append(f"A5 assumed contract of external dependency: {s}" + (f" [validated, bounded, against the installed library by {val}]" if val else ""))
     samples = []
     for r in results[:6]:
         samples.append({"obligation": r["instance"], "kind": r.get("kind"), "verdict": r.get("verdict"),
